@@ -102,4 +102,258 @@ theorem versions_roundtrip (stamp : Text) (hs : stamp.all stampChar = true) (h :
     (facts_config stamp hs _).parse, (facts_log stamp hs _).parse, (facts_packTypeNo stamp hs _).parse]
   simp [Except.map, Snap.view, Header.expected, decToNat_natToDec]
 
+/-! ## the whole snapshot record through `parse_log_file` -/
+
+theorem writeSnapshot_eq (s0 s1 s2 s3 s4 s5 s6 s7 s8 s9 s10 : Text) (name : Text) (h : Header) (bs : List Byte) :
+    writeSnapshot [s0, s1, s2, s3, s4, s5, s6, s7, s8, s9, s10] name h bs = [
+    s0 ++ (shellTag ++ nameTail name),
+    s1 ++ (shellTag ++ (t!"geckolib version " ++ (h.libVersion ++ ['\n']))),
+    s2 ++ (shellTag ++ (t!"SpaPackStruct.xml revision " ++ (h.revision ++ ['\n']))),
+    s3 ++ (shellTag ++ (t!"intouch version EN " ++ (natToDec h.enB ++ (t!" v" ++ (natToDec h.enMaj ++ ('.' :: (natToDec h.enMin ++ ['\n']))))))),
+    s4 ++ (shellTag ++ (t!"intouch version CO " ++ (natToDec h.coB ++ (t!" v" ++ (natToDec h.coMaj ++ ('.' :: (natToDec h.coMin ++ ['\n']))))))),
+    s5 ++ (shellTag ++ (t!"Spa pack " ++ (h.pack ++ (' ' :: (natToDec h.confId ++ (t!" v" ++ (natToDec h.confRev ++ ('.' :: (natToDec h.confRel ++ ['\n']))))))))),
+    s6 ++ (shellTag ++ (t!"Low level configuration # " ++ (natToDec h.configNumber ++ ['\n']))),
+    s7 ++ (shellTag ++ (t!"Config version " ++ (natToDec h.cfg ++ ['\n']))),
+    s8 ++ (shellTag ++ (t!"Log version " ++ (natToDec h.log ++ ['\n']))),
+    s9 ++ (shellTag ++ (t!"Pack type " ++ (natToDec h.packTypeNo ++ ['\n']))),
+    s10 ++ (shellTag ++ (renderBlockL bs ++ ['\n']))] := by
+  simp [writeSnapshot, versionMessages, logLine, nameTail]
+
+theorem fileLoop_cons (d : List Snap) (s : Snap) (line : Text) (upd : Snap → Snap) (rest : List Text)
+    (f : LineFacts line upd) :
+    fileLoop { done := d, snap := some s, conn := none } (line :: rest) =
+      fileLoop { done := d, snap := some (upd s), conn := none } rest := by
+  have := fileStep_line { done := d, snap := some s, conn := none } s rfl rfl line upd f
+  simp only [fileLoop, this]
+
+theorem fileLoop_name (line name : Text) (rest : List Text) (f : NameFacts line name) :
+    ∃ s', fileLoop {} (line :: rest) = fileLoop { done := [], snap := some s', conn := none } rest ∧
+      s'.name = some name ∧ s'.segs = [] := by
+  obtain ⟨s', e, n, g⟩ := fileStep_name {} rfl line name f
+  exact ⟨s', by simp [fileLoop, e], n, g⟩
+
+/-- **whole round trip**: for every `SafeName`, every header (`HeaderOK`), every non-empty block and any time stamps, the
+eleven records `do_snapshot` appends to the log are read by `parse_log_file` as exactly ONE snapshot whose name, pack type,
+pack configuration, in.touch versions, config / log versions and bytes are the ones written -/
+theorem whole_roundtrip (stamps : List Text) (hlen : stamps.length = 11) (hst : ∀ st ∈ stamps, st.all stampChar = true)
+    (name : Text) (hn : SafeName name) (h : Header) (hh : HeaderOK h) (b : Byte) (bs : List Byte) :
+    (parseLogFile (writeSnapshot stamps name h (b :: bs))).map (·.map Snap.view) = .ok [h.expected name (b :: bs)] := by
+  match stamps, hlen with
+  | [s0, s1, s2, s3, s4, s5, s6, s7, s8, s9, s10], _ =>
+    have q : ∀ st, st ∈ [s0, s1, s2, s3, s4, s5, s6, s7, s8, s9, s10] → st.all stampChar = true := hst
+    simp only [List.mem_cons, List.not_mem_nil, or_false] at q
+    rw [writeSnapshot_eq]
+    obtain ⟨n0, e0, hname, _⟩ := fileLoop_name _ name _ (facts_name s0 (q s0 (by simp)) name hn)
+    simp only [parseLogFile]
+    rw [e0,
+      fileLoop_cons _ _ _ _ _ (facts_libVersion s1 (q s1 (by simp)) _ hh.lib),
+      fileLoop_cons _ _ _ _ _ (facts_revision s2 (q s2 (by simp)) _ hh.rev),
+      fileLoop_cons _ _ _ _ _ (facts_intouchEN s3 (q s3 (by simp)) h.enB h.enMaj h.enMin),
+      fileLoop_cons _ _ _ _ _ (facts_intouchCO s4 (q s4 (by simp)) h.coB h.coMaj h.coMin),
+      fileLoop_cons _ _ _ _ _ (facts_spaPack s5 (q s5 (by simp)) _ hh.label h.confId h.confRev h.confRel),
+      fileLoop_cons _ _ _ _ _ (facts_lowLevel s6 (q s6 (by simp)) h.configNumber),
+      fileLoop_cons _ _ _ _ _ (facts_config s7 (q s7 (by simp)) h.cfg),
+      fileLoop_cons _ _ _ _ _ (facts_log s8 (q s8 (by simp)) h.log),
+      fileLoop_cons _ _ _ _ _ (facts_packTypeNo s9 (q s9 (by simp)) h.packTypeNo),
+      fileLoop_cons _ _ _ _ _ (facts_block s10 (q s10 (by simp)) b bs)]
+    simp [fileLoop, Except.map, Snap.view, Header.expected, decToNat_natToDec, hname]
+
+/-! ### outside `SafeName`: the two ways the real parser fails on a name (D14 and its STATV sibling) -/
+
+def exHeader : Header := ⟨t!"0.4.8", t!"19.00", 88, 15, 0, 89, 11, 0, t!"inXM", 186, 3, 0, 4, 9, 9, 6⟩
+def exStamps : List Text := List.replicate 11 t!"2020-12-08 19:53:28,310"
+
+/-- D14: the name `[]` is not safe - the block expression fires on the name line and `int('', 16)` raises ValueError out of
+`parse_log_file`: the whole log becomes unreadable -/
+theorem name_brackets_fails :
+    ¬ SafeName t!"[]" ∧ parseLogFile (writeSnapshot exStamps t!"[]" exHeader [4, 0, 0x78]) = .error .valueError := by
+  constructor
+  · decide
+  · decide +kernel
+
+/-- the same with a name that carries `STATV..</DATAS>`: the segment handler's `struct.unpack` raises -/
+theorem name_statv_fails :
+    ¬ SafeName t!"STATV</DATAS>" ∧
+    parseLogFile (writeSnapshot exStamps t!"STATV</DATAS>" exHeader [4, 0, 0x78]) = .error .structError := by
+  constructor
+  · decide
+  · decide +kernel
+
+/-- .. while names with brackets, parentheses, digits or header-like text are safe -/
+example : SafeName t!"Heating" ∧ SafeName t!"Config version 3" ∧ SafeName t!"a (b) [c" ∧ SafeName t!"['0x1f']" ∧
+    SafeName t!"pump) 2 (on" ∧ SafeName t!"Spa pack inYT 1 v2.3" := by decide
+
+/-! ## traffic logs -/
+
+/-
+FULL statement (what the property asks):
+  theorem segment_roundtrip (seg : List Byte) :
+      litEval (fixQuotes (escBytes (quoteOf seg) seg)) = .ok seg
+FALSE on the current tree (D13, `segment_roundtrip_fails`): when a datagram contains both quote characters CPython writes
+`\'`, which `replace("'", "\\x27")` turns into `\\x27` = a backslash followed by the three characters `x27`.
+-/
+
+/-- **segment round trip (partial: `QuoteSafe`)**: every stretch `seg` of a datagram `pkt` that does not contain BOTH `'` and
+`"` is read back exactly from the text `bytes.__repr__` wrote for it -/
+theorem segment_roundtrip_partial (pkt : List Byte) (hq : QuoteSafe pkt) (seg : List Byte) (hsub : ∀ b ∈ seg, b ∈ pkt) :
+    litEval (fixQuotes (escBytes (quoteOf pkt) seg)) = .ok seg := by
+  have hall : seg.all (okByte (quoteOf pkt)) = true := by
+    rw [List.all_eq_true]; intro b hb; exact okByte_of_quoteSafe pkt hq b (hsub b hb)
+  have := litEval_escBytes _ (quoteOf_cases pkt) seg hall []
+  rw [List.append_nil] at this
+  rw [this]; simp [litEval, litRun, Except.map]
+
+/-- D13 witness: the two-byte segment `'"` comes back as the five bytes `\x27"` -/
+theorem segment_roundtrip_fails :
+    ¬ QuoteSafe [0x27, 0x22] ∧
+    litEval (fixQuotes (escBytes (quoteOf [0x27, 0x22]) [0x27, 0x22])) = .ok [0x5c, 0x78, 0x32, 0x37, 0x22] := by
+  constructor <;> decide
+
+/-- one `Received ..` record of a traffic log -/
+structure Rec where
+  pre : Text
+  post : Text
+  seg : Seg
+
+def recLine (src dst : List Byte) (r : Rec) : Text := trafficLine r.pre r.post (packet src dst r.seg)
+
+/-- every segment but the last announces a successor -/
+def Chained : List Seg → Prop
+  | [] => False
+  | s :: t => (t = [] → s.next = 0) ∧ (t ≠ [] → s.next ≠ 0 ∧ Chained t)
+
+/-- per-record hypotheses: framing text that cannot be mistaken for `STATV` / `</DATAS>`, a length that fits the length
+byte, no `\'` in the rendering (D13), and the block expression `[..]` not raising on the record (it is tried on every line) -/
+structure RecOK (src dst : List Byte) (r : Rec) : Prop where
+  frame : FrameOK r.pre r.post src dst
+  len : r.seg.data.length < 256
+  quotes : QuoteSafe (packet src dst r.seg)
+  noBlockError : dataLine (recLine src dst r) ≠ .raises
+
+theorem parseLines_chain (src dst : List Byte) (recs : List Rec) (hch : Chained (recs.map (·.seg)))
+    (hok : ∀ r ∈ recs, RecOK src dst r) (s : Snap) :
+    ∃ s', parseLines s (recs.map (recLine src dst)) = .ok s' ∧
+      s'.bytes = (s.segs ++ recs.map (·.seg.data)).flatten := by
+  induction recs generalizing s with
+  | nil => exact absurd hch (by simp [Chained])
+  | cons r rs ih =>
+    have ok := hok r (by simp)
+    obtain ⟨s1, e1, g1, b1⟩ := traffic_parse s r.pre r.post src dst r.seg ok.frame ok.len ok.quotes ok.noBlockError
+    cases rs with
+    | nil =>
+      simp only [List.map_cons, List.map_nil, Chained] at hch
+      refine ⟨s1, ?_, ?_⟩
+      · simp only [List.map_cons, List.map_nil, parseLines, recLine, e1]
+      · simpa using b1 (hch.1 trivial)
+    | cons r2 rs =>
+      simp only [List.map_cons, Chained] at hch
+      obtain ⟨s2, e2, b2⟩ := ih (by simpa [Chained] using (hch.2 (by simp)).2) (fun x hx => hok x (by simp [hx])) s1
+      refine ⟨s2, ?_, ?_⟩
+      · simp only [List.map_cons, parseLines, recLine, e1] at e2 ⊢
+        exact e2
+      · rw [b2, g1]; simp
+
+/-- **reassembly of a chain**: the records of one transfer, in order, the last one announcing segment 0, give back the
+concatenation of the segment data -/
+theorem reassemble_chain_partial (src dst : List Byte) (recs : List Rec) (hch : Chained (recs.map (·.seg)))
+    (hok : ∀ r ∈ recs, RecOK src dst r) :
+    reassemble (recs.map (recLine src dst)) = .ok (recs.map (·.seg.data)).flatten := by
+  obtain ⟨s', e, b⟩ := parseLines_chain src dst recs hch hok connInit
+  unfold reassemble; rw [e]; simp [Except.map, b, connInit]
+
+theorem chainFrom_data (i : Nat) (parts : List (List Byte)) : (chainFrom i parts).map (·.data) = parts := by
+  induction parts generalizing i with
+  | nil => rfl
+  | cons d ds ih =>
+    cases ds with
+    | nil => rfl
+    | cons d' ds => simp only [chainFrom, List.map_cons]; rw [ih (i + 1)]
+
+theorem chainFrom_ne (i : Nat) (d : List Byte) (ds : List (List Byte)) : chainFrom i (d :: ds) ≠ [] := by
+  cases ds <;> simp [chainFrom]
+
+theorem chainFrom_chained (i : Nat) (parts : List (List Byte)) (hne : parts ≠ []) (hlen : i + parts.length ≤ 256) :
+    Chained (chainFrom i parts) := by
+  induction parts generalizing i with
+  | nil => exact absurd rfl hne
+  | cons d ds ih =>
+    cases ds with
+    | nil => simp [chainFrom, Chained]
+    | cons d' ds =>
+      simp only [chainFrom, Chained]
+      simp only [List.length_cons] at hlen
+      refine ⟨fun e => absurd e (chainFrom_ne _ _ _), fun _ => ⟨?_, ih (i + 1) (by simp) (by simp; omega)⟩⟩
+      intro e
+      have : (UInt8.ofNat (i + 1)).toNat = 0 := by rw [e]; rfl
+      simp at this; omega
+
+/-
+FULL statement: the same without the `quotes` and `noBlockError` fields of `RecOK`.  FALSE on the current tree:
+`reassemble_fails_quotes` (D13) and `reassemble_fails_brackets` (the block expression fires on a traffic record).
+-/
+
+/-- **any segmentation**: for EVERY split `parts` of the transferred range into at most 256 pieces, the in-order chain
+(idx 0,1,2.., next = idx+1, last next = 0) reassembles to the range -/
+theorem reassemble_any_segmentation_partial (src dst : List Byte) (range : List Byte) (parts : List (List Byte))
+    (hsplit : parts.flatten = range) (hne : parts ≠ []) (hcount : parts.length ≤ 256)
+    (recs : List Rec) (hsegs : recs.map (·.seg) = chainFrom 0 parts) (hok : ∀ r ∈ recs, RecOK src dst r) :
+    reassemble (recs.map (recLine src dst)) = .ok range := by
+  rw [reassemble_chain_partial src dst recs (by rw [hsegs]; exact chainFrom_chained 0 parts hne (by omega)) hok]
+  have : recs.map (·.seg.data) = parts := by
+    have e : recs.map (·.seg.data) = (recs.map (·.seg)).map (·.data) := by simp [List.map_map]
+    rw [e, hsegs, chainFrom_data]
+  rw [this, hsplit]
+
+/-! ## non-vacuity: the hypotheses are met by concrete, realistic instances; the excluded cases really fail -/
+
+example : HeaderOK exHeader := ⟨by decide, by decide, by decide⟩
+example : ∀ st ∈ exStamps, st.all stampChar = true := by decide
+
+/-- the theorem instantiated (hypotheses discharged by evaluation) and the same value obtained by running the model -/
+example : (parseLogFile (writeSnapshot exStamps t!"Pump 1 (low) [test]" exHeader [4, 0, 0x78, 0xff])).map (·.map Snap.view)
+    = .ok [exHeader.expected t!"Pump 1 (low) [test]" [4, 0, 0x78, 0xff]] :=
+  whole_roundtrip exStamps rfl (by decide) _ (by decide) _ ⟨by decide, by decide, by decide⟩ 4 [0, 0x78, 0xff]
+example : (parseLogFile (writeSnapshot exStamps t!"Config version 3" exHeader [4, 0, 0x78, 0xff])).map (·.map Snap.view)
+    = .ok [exHeader.expected t!"Config version 3" [4, 0, 0x78, 0xff]] := by decide +kernel
+
+def exSrc : List Byte := asciiBytes t!"SPA01:02:03:04:05:06"
+def exDst : List Byte := asciiBytes t!"IOS02ac6d28-42d0-41e3-ad22-274d0aa491da"
+def exPre : Text := t!"2020-12-14 10:31:39,710 geckolib.driver.udp_socket DEBUG Received "
+def exPost : Text := t!" from ('192.168.86.229', 10022)\n"
+/-- a 39-byte first segment (its length byte IS the quote character `'`) and a short last one -/
+def exSeg0 : Seg := ⟨0, 1, [2, 2, 0xac, 2, 8, 0, 1, 0x1e, 0x17, 0, 0x0c, 0, 1, 0, 2, 3, 4, 0, 0, 0, 0, 0x0c, 0, 0, 0, 0, 0x0e, 0, 0,
+  1, 0, 1, 2, 1, 0x5b, 0x41, 0x5c, 0x0a, 0x7f]⟩
+def exSeg1 : Seg := ⟨1, 0, [0x30, 0x40, 0x80]⟩
+def exRecs : List Rec := [⟨exPre, exPost, exSeg0⟩, ⟨exPre, exPost, exSeg1⟩]
+
+example : ∀ r ∈ exRecs, RecOK exSrc exDst r := by
+  intro r hr
+  simp only [exRecs, List.mem_cons, List.not_mem_nil, or_false] at hr
+  rcases hr with rfl | rfl
+  · exact ⟨⟨by decide, by decide, by decide, by decide⟩, by decide, by decide, by decide +kernel⟩
+  · exact ⟨⟨by decide, by decide, by decide, by decide⟩, by decide, by decide, by decide +kernel⟩
+example : Chained (exRecs.map (·.seg)) := by simp [Chained, exRecs, exSeg0, exSeg1]
+example : exRecs.map (·.seg) = chainFrom 0 [exSeg0.data, exSeg1.data] := by decide
+example : reassemble (exRecs.map (recLine exSrc exDst)) = .ok (exSeg0.data ++ exSeg1.data) := by decide +kernel
+
+/-- D13 on a whole record: one `"` (0x22) in a full 39-byte segment (whose length byte is `'`) and the reassembled block is
+not the transferred one -/
+def badSegQ : Seg := ⟨0, 0, 0x22 :: List.replicate 38 0⟩
+theorem reassemble_fails_quotes :
+    ¬ QuoteSafe (packet exSrc exDst badSegQ) ∧
+    reassemble [recLine exSrc exDst ⟨exPre, exPost, badSegQ⟩] ≠ .ok badSegQ.data := by
+  constructor
+  · decide
+  · decide +kernel
+
+/-- the block expression is tried on traffic records too: a segment whose data spells `[]` (0x5b 0x5d) makes the connection
+parse raise ValueError -/
+def badSegB : Seg := ⟨0, 0, [0x5b, 0x5d, 1, 2]⟩
+theorem reassemble_fails_brackets :
+    QuoteSafe (packet exSrc exDst badSegB) ∧
+    reassemble [recLine exSrc exDst ⟨exPre, exPost, badSegB⟩] = .error .valueError := by
+  constructor
+  · decide
+  · decide +kernel
+
 end GeckoModel.C19
